@@ -84,6 +84,8 @@ def targets(T: str) -> dict[str, tuple[dict[str, str], str, str, str]]:  # noqa:
     t["lib_private_segment"] = ({}, "from concurrent.futures._base import Executor\n", "Executor", f"a{T}.py")
     # a class whose name the naming conversion changes (declaration, import and use must agree)
     t["sibling_snake_case_name"] = ({f"b{T}.py": CLS.format(n=f"snake_b{T}", T=T)}, f"from .b{T} import snake_b{T}\n", f"snake_b{T}", f"a{T}.py")
+    # the package re-exports ANOTHER class whose name ends with the referenced class's name (DataB<T> vs B<T>)
+    t["suffix_of_reexported_name"] = ({f"b{T}.py": c, f"_core{T}.py": CLS.format(n=f"Data{B}", T=T + "q"), "__init__.py": f"from ._core{T} import Data{B}\n"}, f"from .b{T} import {B}\n", B, f"a{T}.py")
     t["private_not_reexported"] = ({f"_b{T}.py": c}, f"from ._b{T} import {B}\n", B, f"a{T}.py")
     t["private_class"] = ({f"b{T}.py": CLS.format(n="_" + B, T=T)}, f"from .b{T} import _{B}\n", f"_{B}", f"a{T}.py")
     t["nested_other_module"] = ({f"b{T}.py": f"class O{T}:\n    class I{T}:\n        def m{T}(self) -> int:\n            return 1\n"}, f"from .b{T} import O{T}\n", f"O{T}.I{T}", f"a{T}.py")
